@@ -608,6 +608,15 @@ func (op *ShellOperator) taskHandleHookRun(t task.Task) queue.TaskResult {
 	res.Status = "Success"
 
 	if shouldRunHook {
+		// Objects for the Synchronization are read when the hook is started: events saved up to now
+		// are reflected in them. Only the Synchronization drops saved events, other readers of snapshots
+		// (other bindings, the debug server) should not: the hook will not see these events otherwise.
+		if isSynchronization || len(hookMeta.MonitorIDs) > 0 {
+			for _, monitorID := range hookMeta.MonitorIDs {
+				taskHook.HookController.DropSavedKubernetesEventsFor(monitorID)
+			}
+		}
+
 		taskLogEntry.Info("Execute hook")
 
 		success := 0.0
